@@ -94,7 +94,7 @@ func discharge(o *Obligation, cfg SolverCfg) {
 		cfg.TimeoutS = 3
 	}
 	dir := cfg.OutDir
-	base := filepath.Join(dir, sanitize(o.Name))
+	base := filepath.Join(dir, fileSafe(o.Name))
 	if len(base) > 200 {
 		base = base[:200]
 	}
@@ -192,7 +192,7 @@ func discharge(o *Obligation, cfg SolverCfg) {
 // checkCover: the negated goal of a cover obligation is the reach condition itself; it must be satisfiable
 // (sat or unknown are accepted; unsat means the assumptions are contradictory).
 func checkCover(o *Obligation, cfg SolverCfg) {
-	base := filepath.Join(cfg.OutDir, sanitize(o.Name))
+	base := filepath.Join(cfg.OutDir, fileSafe(o.Name))
 	smt := o.Script.RenderCover(o.NFacts, o.NegGoal)
 	fz := base + ".smt2"
 	os.WriteFile(fz, []byte(smt), 0o644)
